@@ -591,6 +591,7 @@ type State struct {
 	epoch      int             // number of Shift/Skip/Reset so far
 	decL, decD int             // how often Lmin / dispLo decreased at joins (widening trigger)
 	moves      int             // number of cursor-changing operations on this path (capped)
+	ownBack    bool            // the function being analysed itself moved the cursor backwards on this path (Rewind, Move(-k)); not inherited from callees
 	stale      int             // number of in-place rewrites of consumed bytes so far
 	wrote      uint8           // kinds of in-place rewrites on this path: wroteFold | wroteSpace | wroteOther
 	dispLo     int             // net displacement of pos since the entry of the analysed entry point
@@ -1174,6 +1175,9 @@ func (s *State) joinInto(o *State, wl int) bool {
 	if o.wrote&^s.wrote != 0 {
 		s.wrote |= o.wrote
 		changed = true
+	}
+	if o.ownBack && !s.ownBack {
+		s.ownBack = true
 	}
 	if o.moves > s.moves {
 		s.moves = o.moves
